@@ -1,7 +1,7 @@
 (* Props/C09.v — the theorems that decide property C09.  Statements only;
    every proof is [exact <lemma>].  Do not weaken: tools/audit.py pins the
    hash of this file's statements. *)
-From CKB Require Import Freezer.Files Freezer.Machine Freezer.Repair Freezer.MachineProofs Freezer.IndexCodec.
+From CKB Require Import Freezer.Files Freezer.Machine Freezer.Repair Freezer.MachineProofs Freezer.IndexCodec Freezer.Cursor Freezer.CursorProofs.
 
 (* Any history of appends, truncations, re-opens and crashes (index cut to any
    byte length that keeps the sentinel, newest data file cut to any length)
@@ -76,6 +76,33 @@ Theorem c09_build_fixed_on_witness :
              /\ dump s' = [Some (Some (f1_item 1)); Some (Some (f1_item 2)); Some (Some (f1_item 3))].
 Proof. exact build_fixed_on_f1. Qed.
 
+(* Reads do not disturb the freezer: a history with retrieve(i) calls of any
+   items at any points (each leaves the cursor that the head file's write
+   handle shares behind the item it read) refines the abstract list exactly
+   like the history without them, and reaches the very same state. *)
+Theorem c09_reads_refine : forall max ops cs xs,
+  Clean (c_st cs) xs ->
+  exists cs' xs', crun true max cs ops = Some cs' /\ Clean (c_st cs') xs' /\ spec_run xs (strip ops) xs'.
+Proof. intros max ops. exact (crun_refines max ops). Qed.
+
+Theorem c09_reads_same_state : forall max ops cs xs,
+  Clean (c_st cs) xs ->
+  option_map c_st (crun true max cs ops) = run max (c_st cs) (strip ops).
+Proof. intros max ops. exact (crun_is_run max ops). Qed.
+
+(* F12: with Head::write as it was (writing at the shared cursor) a read
+   between two appends makes the later append overwrite a frozen item *)
+Theorem c09_cursor_old_refuted :
+  exists cs, crun false 100 cfresh f12_ops = Some cs /\
+             retrieve (c_st cs) 2 <> Some (Some [2; 2; 2; 2]%N) /\
+             number (c_st cs) = 4.
+Proof. exact cursor_old_refuted. Qed.
+
+Theorem c09_cursor_fixed_on_witness :
+  exists cs, crun true 100 cfresh f12_ops = Some cs /\
+             map (retrieve (c_st cs)) [1; 2; 3] = [Some (Some [1; 1; 1; 1]%N); Some (Some [2; 2; 2; 2]%N); Some (Some [3; 3; 3; 3]%N)].
+Proof. exact cursor_fixed_on_witness. Qed.
+
 Redirect "out/C09.c09_refines_list" Print Assumptions c09_refines_list.
 Redirect "out/C09.c09_fresh_clean" Print Assumptions c09_fresh_clean.
 Redirect "out/C09.c09_clean_answers" Print Assumptions c09_clean_answers.
@@ -87,3 +114,7 @@ Redirect "out/C09.c09_parse_index" Print Assumptions c09_parse_index.
 Redirect "out/C09.c09_example_clean" Print Assumptions c09_example_clean.
 Redirect "out/C09.c09_build_old_refuted" Print Assumptions c09_build_old_refuted.
 Redirect "out/C09.c09_build_fixed_on_witness" Print Assumptions c09_build_fixed_on_witness.
+Redirect "out/C09.c09_reads_refine" Print Assumptions c09_reads_refine.
+Redirect "out/C09.c09_reads_same_state" Print Assumptions c09_reads_same_state.
+Redirect "out/C09.c09_cursor_old_refuted" Print Assumptions c09_cursor_old_refuted.
+Redirect "out/C09.c09_cursor_fixed_on_witness" Print Assumptions c09_cursor_fixed_on_witness.
